@@ -1225,6 +1225,7 @@ def r_repr(ctx):
                 tg = g.term(_as_load(d.extra), nd)
                 val = g.term(nd.stmt.value, nd)
                 ok = False
+                wit_ = val[0] == 'c' and val != ('c', 1)
                 if tg[0] == 'sub' and tg[1][0] == 'sub' and val == ('c', 1):
                     rowidx, sel = tg[1][2], tg[2]
                     # sel = row[row >= 0] with row the accessor row enumerated with rowidx
@@ -1232,7 +1233,18 @@ def r_repr(ctx):
                         row = sel[1]
                         ok = (row[0] == 'iter' and rowidx[0] == 'idx' and rowidx[1] == row[1]) or \
                              (row[0] == 'sub' and row[2] == rowidx)
-                run.check(ok, 'R-REPR', g, 'matrix-entry', nd.lineno, 'matrix[v][live entries of ACC[v]] = 1',
+                        wit_ = not ok and ((row[0] == 'iter' and rowidx[0] == 'idx') or row[0] == 'sub')
+                    elif sel[0] == 'sub' and K.kind(sel[1], g) == 'ROW':
+                        wit_ = sel[2][0] in ('cmp', 'slice', 'c')        # another selection of the row (all entries, a wrong test)
+                    elif K.kind(sel, g) == 'ROW':
+                        wit_ = True                                       # the whole row, -1 included, used as column indices
+                if tg[0] == 'sub' and tg[2][0] == 'tuple' and len(tg[2]) == 3 and tg[2][1][0] == 'sub' and \
+                        K.kind(tg[2][1][1], g) == 'ROW' and tg[2][2][0] in ('idx', 'iter'):
+                    wit_ = True          # matrix[live targets of v, v]: the arc is recorded from the target to the source
+                if tg[0] == 'sub' and tg[1][0] == 'sub' and tg[1][2][0] == 'sub' and K.kind(tg[1][2][1], g) == 'ROW' and \
+                        tg[2][0] in ('idx', 'iter'):
+                    wit_ = True          # the same, as the terms write a[sel, i]
+                _tri(run, ok, wit_, 'R-REPR', g, 'matrix-entry', nd.lineno, 'matrix[v][live entries of ACC[v]] = 1',
                           'the matrix store %s = %s is not matrix[v][live targets of v] = 1' % (show(tg)[:80], show(val)[:10]),
                           inputs='every graph')
     run.floor('R-REPR', 'stores in accessor_to_adjacency_matrix', m, 1)
